@@ -8,10 +8,13 @@ import (
 	"bytes"
 	"compress/flate"
 	"encoding/binary"
+	"encoding/json"
 	"errors"
 	"fmt"
 	"hash/crc32"
 	"io"
+	"os"
+	"os/exec"
 	"runtime"
 	"strings"
 	"sync"
@@ -746,7 +749,12 @@ func wBamRecord(h *sam.Header, i, n int) *sam.Record {
 
 // wBamReference produces the uncompressed BAM stream of the script by a fault-free sequential run, and the
 // header length.
-func wBamReference(in wInput) (data []byte, headerLen int, recEnds []int) {
+func wBamReference(in wInput) (data []byte, headerLen int, recEnds []int, err error) {
+	defer func() {
+		if v := recover(); v != nil {
+			err = fmt.Errorf("reference run: %v", v)
+		}
+	}()
 	var buf bytes.Buffer
 	h := wBamHeader()
 	var hb bytes.Buffer
@@ -786,8 +794,14 @@ func wBamReference(in wInput) (data []byte, headerLen int, recEnds []int) {
 func wRunBam(in wInput) *wRun {
 	r := &wRun{in: in}
 	var recEnds []int
-	r.data, r.headerLen, recEnds = wBamReference(in)
+	var rerr error
+	r.data, r.headerLen, recEnds, rerr = wBamReference(in)
 	r.rw = &recWriter{delays: &Rand{in.DelaySeed}, maxDelay: in.MaxDelayUs, faultAt: in.FaultAt, partial: in.Partial}
+	if rerr != nil {
+		// the fault-free sequential run (wc=1, in-memory writer) of this script does not decode: blocks lost or reordered
+		r.fail("writer.sequential-run.corrupt", "bam script, wc=1, no faults, no delays: the output does not decode into the records written: %v", rerr)
+		return r
+	}
 	old := runtime.GOMAXPROCS(in.Procs)
 	defer runtime.GOMAXPROCS(old)
 	r.beforeLib = len(libGoroutines(allStacks(), "github.com/biogo/hts/bgzf.", false))
@@ -1010,6 +1024,73 @@ func firstLines(s string, n int) string {
 }
 
 // ---------------------------------------------------------------------------
+// isolation: a panic in a goroutine started by the library (not recoverable by the caller) kills the process,
+// so the whole check runs in a child process that notes the case it is working on; if the child dies the
+// parent reports that case as the failing input.
+
+var caseFile = os.Getenv("VERIF_A10_CASE")
+
+func noteCase(v interface{}) {
+	if caseFile == "" {
+		return
+	}
+	if b, err := json.Marshal(v); err == nil {
+		os.WriteFile(caseFile, b, 0o644)
+	}
+}
+
+// runInChild returns false in the child (which then does the work); in the parent it runs the child and
+// fills c.res from the child's result or, if the child crashed, with the crash as a failure.
+func runInChild(c *ctx, prop string) bool {
+	if os.Getenv("VERIF_A10_CHILD") != "" {
+		return false
+	}
+	dir, err := os.MkdirTemp("", "verif-a10-")
+	if err != nil {
+		return false
+	}
+	defer os.RemoveAll(dir)
+	out := dir + "/result.json"
+	cf := dir + "/case.json"
+	args := []string{prop, "-tier", c.tier, "-seed", fmt.Sprint(c.seed), "-driver", c.driver, "-out", out}
+	if c.replay != "" {
+		args = append(args, "-replay", c.replay)
+	}
+	cmd := exec.Command(os.Args[0], args...)
+	cmd.Env = append(os.Environ(), "VERIF_A10_CHILD=1", "VERIF_A10_CASE="+cf)
+	var stderr bytes.Buffer
+	cmd.Stderr = &stderr
+	cmd.Stdout = &stderr
+	runErr := cmd.Run()
+	if b, err := os.ReadFile(out); err == nil && runErr == nil {
+		var r Result
+		dec := json.NewDecoder(bytes.NewReader(b))
+		dec.UseNumber() // 64-bit seeds inside failure inputs must survive the round trip
+		if dec.Decode(&r) == nil {
+			r.distinct = map[string]bool{}
+			*c.res = r
+			return true
+		}
+	}
+	// the child died: the case it was working on is the failing input
+	var input json.RawMessage
+	if b, err := os.ReadFile(cf); err == nil {
+		input = b
+	}
+	msg := stderr.String()
+	if len(msg) > 3000 {
+		msg = msg[:3000]
+	}
+	sig := "crash:" + topRepoFrame(msg)
+	if strings.Contains(msg, "all goroutines are asleep") {
+		sig = "crash:deadlock"
+	}
+	c.res.fail(sig, fmt.Sprintf("the harness process died while running this case (%v): %s", runErr, msg), input)
+	c.res.eval("crash", true)
+	return true
+}
+
+// ---------------------------------------------------------------------------
 // generators
 
 func wGenSize(rnd *Rand) int {
@@ -1201,6 +1282,9 @@ func wHist(res *Result, in wInput, r *wRun) {
 func checkC12(c *ctx) {
 	res := c.res
 	res.Rule = "one case = one writer script (bgzf: Write sizes biased to 0, 1, small, BlockSize-1/BlockSize/BlockSize+1, 2*BlockSize±1, Flush/Wait interleavings, with and without Close, calls after Close; bam: NewWriter + record writes + Close) x wc in 0..5 x GOMAXPROCS in {1,2,16} x random per-call delay of the underlying writer (0..2ms) x random delays between API calls; no faults. Non-trivial = at least 2 blocks delivered and at least one Flush, Wait or Close; distinct by (wc, script shape, gomaxprocs, delay class). Oracle on the implementation: after every underlying Write that returned, the delivered bytes are whole BGZF members (own framing parser, CRC32/ISIZE verified) decoding to a prefix of the data handed to the writer so far; Flush+Wait==nil => everything written before the Flush is delivered; Close==nil => everything plus the EOF marker; bam.NewWriter==nil => the header is delivered. Correspondence: the observed trace of API call/return and underlying Write events must be a path of the Lean LTS (c12.trace)."
+	if runInChild(c, "C12") {
+		return
+	}
 	d := c.drv()
 	var impl []string
 	var ins []wInput
@@ -1210,6 +1294,7 @@ func checkC12(c *ctx) {
 			res.note("replay: %v", err)
 			return
 		}
+		noteCase(in)
 		r := wRunScript(in)
 		wJudge(c, r, d, &impl, &ins)
 		res.eval(in.shape(), true)
@@ -1227,6 +1312,7 @@ func checkC12(c *ctx) {
 			break
 		}
 		in := wGenInput(c.rnd, true)
+		noteCase(in)
 		r := wRunScript(in)
 		wJudge(c, r, d, &impl, &ins)
 		wHist(res, in, r)
